@@ -220,9 +220,9 @@ def _stmt_reads(w):
 
 
 def md_classify(ws):
-    """Mirror of `mdSafe` (PharmpyModel/C07/Model.lean) on wire statements.
-    Returns the set of violated clauses: 'first' (a), 'emit' (b)."""
-    n = len(ws)
+    """Mirror of `mdSafe` (PharmpyModel/C07/Model.lean, the code after repair e5b2100) on wire statements.
+    Returns the set of violated clauses: 'emit' (b) = an emitted statement defines a symbol that a still pending
+    value reads.  (Clause (a) 'first' of the pre-repair code no longer exists: first assignments are substituted.)"""
     bad = set()
     seen = set()
     cur = {}  # pending symbol -> set of symbols its (substituted) value reads
@@ -253,12 +253,8 @@ def md_classify(ws):
             if x in range_syms():
                 bad.add("emit")
             seen.add(x)
-        elif not earlier:
-            if reads & set(cur):
-                bad.add("first")
-            seen.add(x)
-            cur[x] = set(reads)
         elif later:
+            seen.add(x)
             cur[x] = subst_syms(reads)
         else:
             if x in range_syms(exclude=x):
